@@ -60,8 +60,8 @@ def norm_text(t):
         prev = t
         t = _VAL_PLACE.sub(r"\1", t)
         t = _strip_wrapped(t, "val(", "")
-    t = _SOME_PLACE.sub(r"P(\1)", t)
-    t = _strip_wrapped(t, "SOME(", "P(")
+    # "is Some": one predicate name, whether it was read by a pattern, is_some() or `?`
+    t = re.sub(r"(?<![A-Za-z_])SOME\(", "P(", t)
     return _flatten_phi(t)
 
 
@@ -1237,6 +1237,12 @@ def u6(rep, F, flt=None):
         g = guards.from_json(spec[path]["f"])
         eq, wit = equivalent(f, g)
         if eq is not True:
+            rw, who = decide.rewritten(F, path)
+            if rw:
+                r["undecided"] = r.get("undecided", 0) + 1
+                rep.notes.append("U6: %s (%s) differs from the reviewed version in %d statements / conditions: "
+                                 "restructured, comparison with the reference undecided" % (path, who, rw))
+                continue
             verdict, info = decide.definite_difference(f, g, vocab)
             if verdict == "same":
                 eq = True
@@ -1277,6 +1283,9 @@ def store_signature(ex):
     return sorted(set(out))
 
 
+UNKNOWN_EXITS = {}
+
+
 def extract_stores(F):
     res = {}
     for b in targets(F):
@@ -1289,6 +1298,10 @@ def extract_stores(F):
             continue
         if ex.stores:
             res[b["path"]] = (store_signature(ex), b)
+            acc_atoms = set()
+            for f_ in ex.accept:
+                acc_atoms |= atoms_of(f_)
+            UNKNOWN_EXITS[b["path"]] = [a_ for a_ in acc_atoms if a_.startswith(("CALLOK(", "OK("))]
     return res
 
 
@@ -1358,6 +1371,12 @@ def u7(rep, F, flt=None):
             continue
         sig, b = cur[path]
         if sig != spec[path]:
+            rw, who = decide.rewritten(F, path)
+            if rw:
+                r["undecided"] = r.get("undecided", 0) + 1
+                rep.notes.append("U7: %s (%s) differs from the reviewed version in %d statements / conditions: "
+                                 "restructured, comparison with the reference undecided" % (path, who, rw))
+                continue
             a = [x for x in sig if x not in spec[path]]
             o = [x for x in spec[path] if x not in sig]
             vocab = reference_vocabulary()
@@ -1387,6 +1406,12 @@ def u7(rep, F, flt=None):
                 rep.add(Finding("U7", path, "store-changed",
                                 "%s now sets %s to `%s`; the reference sets it to `%s`"
                                 % (path, definite[0], definite[1][:200], definite[2][:200]), b["file"], b["line"]))
+                continue
+            if (not a or not o) and any(decide.opaque(x_, vocab) for x_ in UNKNOWN_EXITS.get(path, [])):
+                # entries exist on one side only and the function hands back the result of a callee the reference
+                # does not know: what that callee delivers is not visible here
+                r["undecided"] = r.get("undecided", 0) + 1
+                rep.notes.append("U7: %s: delivers the result of a helper unknown to the reference: undecided" % path)
                 continue
             pruning = [x for x in a if re.search(r"\.(retain|truncate|clear|remove|pop|drain|dedup|swap_remove)\(", x.partition(" => ")[2])]
             if not o and pruning:
